@@ -225,3 +225,13 @@ TEXT["C15"] = {
     "note": GW_NOTE + " Partial: isolation of the code rests on the correspondence runs (testing) and on the event-atomic driving; concurrent schedules inside the Go runtime are not enumerated.",
     "technique": "Coq non-interference theorem over all interleavings + differential execution of concurrent real sessions sharing one configuration",
 }
+
+TEXT["C25"] = {
+    "level": "Theorems C25_gateway_never_crashes / C25_client_never_crashes: in the models the only crash outcomes of a session step "
+             "are the bounds-checked accesses of packet decoding, and no history reaches one (C20's theorem lifted to every event "
+             "history of both components); every other panic-capable expression of gateway/, client/, transactions/, util/ is "
+             "enumerated from the source on every run and accounted for in coq/panic_sites.md; all stateful driver runs (single, "
+             "concurrent sessions, client) record process crashes with the history that caused them.",
+    "note": GW_NOTE + " Partial: outside the codec the absence of panics rests on the census (syntactic: assertions, index/slice expressions, panic/close) plus the recorded justifications and on the runs, not on a proof; nil dereferences and data races (e.g. a timer firing before its field is assigned) are covered by the runs only.",
+    "technique": "Coq theorem (decode is the only crash outcome of a step; none reachable) + panic-site census regenerated from source + crash recording on all stateful differential runs",
+}
